@@ -2,3 +2,4 @@ import Osmt.Term
 import Osmt.Prop
 import Osmt.Skel
 import Osmt.Cdcl
+import Osmt.LA
